@@ -103,7 +103,7 @@ PROPS["C13"] = dict(
 PROPS["C02"] = dict(
     name="c02", thorough_rounds=1, sources=["props/c02.cpp"], engine="enumerator",
     builds=[("asan", "native")],
-    builds_thorough=[("asan", "native"), ("asan", "noasm"), ("asan", "portable")],
+    builds_thorough=[("asan", "native"), ("asan", "noasm"), ("asan", "portable"), ("plain", "native")],
     level="exploration",
     rule=("For each of the verifying APIs (6 AEADs x {decrypt, decrypt verify-only (m=NULL), decrypt_detached, detached verify-only} + AES-256-GCM afternm, secretbox open_easy/open_detached in both "
           "ciphers + NaCl form, box open_easy/open_detached/afternm forms/NaCl forms/seal_open in both ciphers, secretstream pull, crypto_auth x4 and crypto_onetimeauth verify, crypto_sign_open, "
@@ -119,9 +119,9 @@ PROPS["C02"] = dict(
 
 PROPS["C18"] = dict(
     name="c18", thorough_rounds=30, sources=["props/c18.cpp"], engine="enumerator",
-    ldflags=["-Wl,--wrap=getrandom,--wrap=getentropy,--wrap=read,--wrap=open,--wrap=open64,--wrap=gettimeofday"],
+    ldflags=["-Wl,--wrap=getrandom,--wrap=getentropy,--wrap=fstat,--wrap=read,--wrap=open,--wrap=open64,--wrap=gettimeofday"],
     builds=[("asan", "native")],
-    builds_thorough=[("asan", "native"), ("asan", "portable")],
+    builds_thorough=[("asan", "native"), ("asan", "portable"), ("plain", "native")],
     level="exploration",
     rule=("A scripted randombytes_implementation without `uniform` is installed before sodium_init and logs every request. (a) randombytes_uniform(n) for n in {0,1,2,3,5,..,2^k-1,2^k,2^k+1 (k=2..31), "
           "2^31+-1, 2^32-1, 2^32-2, 300 random}: scripts of 0..4 rejected draws taken from {0, min-1, min/2, random<min} in every order followed by an accepted draw from {min, min+1, 2^32-1, random}; plus rejection runs of 5..4097 draws for 7 bounds; "
@@ -143,7 +143,7 @@ PROPS["C18"] = dict(
 PROPS["C04"] = dict(
     name="c04", thorough_rounds=8, sources=["props/c04.cpp"], engine="rapidcheck + enumerator", libs=["-lrapidcheck"],
     builds=[("asan", "native"), ("asan", "noti")],
-    builds_thorough=[("asan", "native"), ("asan", "noti"), ("asan", "noasm"), ("asan", "portable")],
+    builds_thorough=[("asan", "native"), ("asan", "noti"), ("asan", "noasm"), ("asan", "portable"), ("plain", "native")],
     level="exploration",
     rule=("Enumerated: every message length 0..1100 x 12 algorithms (SHA-256/512, HMAC-SHA-256/512/512-256, BLAKE2b generichash with/without salt+personal, SipHash-2-4 64/128, Poly1305, "
           "HKDF-SHA-256/512 extract) one-shot and through init/update/final with a 4-way split, BLAKE2b and Poly1305 under every dispatch mask {all=AVX2, -avx2=SSE4.1, -sse41=SSSE3, -ssse3=ref, none=donna}; "
@@ -160,7 +160,7 @@ PROPS["C04"] = dict(
 PROPS["C01"] = dict(
     name="c01", thorough_rounds=1, sources=["props/c01.cpp"], engine="enumerator",
     builds=[("asan", "native"), ("asan", "noasm")],
-    builds_thorough=[("asan", "native"), ("asan", "noasm"), ("asan", "noti"), ("asan", "portable")],
+    builds_thorough=[("asan", "native"), ("asan", "noasm"), ("asan", "noti"), ("asan", "portable"), ("plain", "native")],
     level="exploration",
     rule=("12 constructions (ChaCha20-Poly1305 original/IETF, XChaCha20-Poly1305, AES-256-GCM incl. beforenm/afternm, AEGIS-128L/256, secretbox XSalsa20/XChaCha20, box in both ciphers, sealed boxes in both "
           "ciphers with the ephemeral key served by a scripted random source). For each case every call form is executed (combined, detached, clen_p==NULL, precomputed-key, easy, NaCl zero-padded, "
@@ -192,7 +192,7 @@ PROPS["C05"] = dict(
 PROPS["C06"] = dict(
     name="c06", thorough_rounds=1, sources=["props/c06.cpp"], engine="rapidcheck + enumerator", libs=["-lrapidcheck"], cflags=["-O2"],
     builds=[("asan", "native")],
-    builds_thorough=[("asan", "native"), ("asan", "noti"), ("asan", "portable")],
+    builds_thorough=[("asan", "native"), ("asan", "noti"), ("asan", "portable"), ("plain", "native")],
     level="exploration",
     rule=("Honest direction: every message length 0..300 (+24 sampled up to 64 KiB) with generated seeds: seed_keypair, sign_detached, sign (combined), Ed25519ph init/update/final_create (message fed in chunks) equal the RFC 8032 "
           "big-integer model; the signature verifies in detached, combined and pre-hashed form; ph and pure signatures are not interchangeable; sk_to_seed/sk_to_pk consistent; pk_to_curve25519 = (1+y)/(1-y), "
@@ -209,7 +209,7 @@ PROPS["C06"] = dict(
 PROPS["C07"] = dict(
     name="c07", thorough_rounds=2, sources=["props/c07.cpp"], engine="rapidcheck + enumerator", libs=["-lrapidcheck"], cflags=["-O2"],
     builds=[("asan", "native"), ("asan", "noti")],
-    builds_thorough=[("asan", "native"), ("asan", "noti"), ("asan", "portable"), ("asan", "noasm")],
+    builds_thorough=[("asan", "native"), ("asan", "noti"), ("asan", "portable"), ("asan", "noasm"), ("plain", "native")],
     level="exploration",
     rule=("rapidcheck (seed from VERIF_SEED, shrinking) with model-generated operands of KNOWN order. Edwards25519 (16000 cases/build): encodings of prime-order points k*B, prime-order + each of the 7 non-trivial "
           "torsion points (orders 2L, 4L, 8L), pure torsion, non-canonical aliases of torsion points (y+p, sign bit on x=0), y>=p, small y, random bytes (half not on the curve), sign-flipped points; "
@@ -227,7 +227,7 @@ PROPS["C07"] = dict(
 PROPS["C08"] = dict(
     name="c08", thorough_rounds=6, sources=["props/c08.cpp"], engine="rapidcheck + enumerator", libs=["-lrapidcheck"], cflags=["-O2"],
     builds=[("asan", "native")],
-    builds_thorough=[("asan", "native"), ("asan", "noasm"), ("asan", "portable")],
+    builds_thorough=[("asan", "native"), ("asan", "noasm"), ("asan", "portable"), ("plain", "native")],
     level="exploration",
     rule=("Raw Argon2i/Argon2id through crypto_pwhash and the variant-specific functions: memory 8..1024 KiB incl. every residue of m mod 4 and the reference-index edge cases (m = 8,9,..,17,19,23,24,31..33,..), 1..4 passes, "
           "output lengths {16,17,31..33,63..66,127..129,200} and every length 16..130, passwords 0..200 bytes incl. embedded NUL, sub-KiB memlimit remainders, under every block-fill backend mask "
@@ -246,7 +246,7 @@ PROPS["C08"] = dict(
 PROPS["C09"] = dict(
     name="c09", thorough_rounds=1, sources=["props/c09.cpp"], engine="rapidcheck (operation histories) + enumerator", libs=["-lrapidcheck"],
     builds=[("asan", "native")],
-    builds_thorough=[("asan", "native"), ("asan", "noasm"), ("asan", "portable")],
+    builds_thorough=[("asan", "native"), ("asan", "noasm"), ("asan", "portable"), ("plain", "native")],
     level="exploration",
     rule=("rapidcheck generates operation histories (1..24 ops, thorough 1..200; the whole list shrinks as one value) over {push(tag in MESSAGE/PUSH/REKEY/FINAL/arbitrary byte, mlen from a block-boundary mixture 0..700, "
           "ad NULL/0..80), explicit rekey, rekey with a desynchronisation probe, genuine pull, and deviating pulls: replayed earlier chunk, skip-ahead, truncation by 1..17 bytes, bit flip, altered/dropped ad, chunk of a "
@@ -278,14 +278,14 @@ PROPS["C20"] = dict(
 
 PROPS["C10"] = dict(
     name="c10", thorough_rounds=3, sources=["props/c10.cpp"], engine="enumerator (deterministic corpus x configurations)",
-    builds=[("asan", "native"), ("asan", "noasm"), ("asan", "noti"), ("asan", "portable"), ("asan", "nosimd")],
-    builds_thorough=[("asan", "native"), ("asan", "noasm"), ("asan", "noti"), ("asan", "portable"), ("asan", "nosimd"), ("plain", "native"), ("plain", "portable")],
+    builds=[("asan", "native"), ("asan", "noasm"), ("asan", "noti"), ("asan", "portable"), ("asan", "nosimd"), ("plain", "mflags"), ("asan", "ndebug")],
+    builds_thorough=[("asan", "native"), ("asan", "noasm"), ("asan", "noti"), ("asan", "portable"), ("asan", "nosimd"), ("plain", "native"), ("plain", "portable"), ("plain", "mflags"), ("plainclang", "mflags"), ("asan", "ndebug")],
     level="exploration",
     rule=("A shared deterministic corpus (pure function of VERIF_SEED) drives harness/apitable.hpp: 61 drivers covering ~290 public deterministic functions (all AEAD forms, MAC/hash one-shot and streaming, KDFs, stream "
           "ciphers and cores, secretbox/box incl. NaCl and afternm forms, seal_open, secretstream, X25519, kx, Ed25519 incl. ph and conversions, Edwards/Ristretto group, scalar and hash-to-group functions, comparison/"
           "arithmetic helpers, codecs, padding, Argon2/scrypt raw + verify/needs_rehash), with structured arguments where the backends' input screening could disagree (X25519 low-order / non-canonical / sparse points, stream counters that put the 2^32 carry at a vector-stride boundary, Poly1305 blocks solved for a carry-critical accumulator, Argon2 with more than one address block per segment, every prefix of a hash string) and argument lengths at block boundaries (0,1,15-17,31-33,63-65,127-129,255-257,511-513,1023-1025) and random lengths <= 4 KiB. "
           "(a) in-process, per case: outputs and return codes under every mask of the chain AVX-512F > AVX2 > AVX > SSE4.1 > SSSE3 > SSE3 > none, with AES-NI/PCLMUL off, and under random closed feature subsets must "
-          "equal those of the reference configuration (mask none; for AES-256-GCM: mask all, compared only where it is available). (b) across builds {native, noasm, noti, portable, nosimd} (thorough: + gcc builds): the "
+          "equal those of the reference configuration (mask none; for AES-256-GCM: mask all, compared only where it is available). (b) across builds {native, noasm, noti, portable, nosimd, ndebug = native with -DNDEBUG, gcc with Makefile.am's per-library machine flags} (thorough: + further gcc / clang builds): the "
           "driver compares the per-case digests of all builds. (c) for all 1024 subsets of the 10 feature bits: reported flags == detected & mask and crypto_aead_aes256gcm_is_available() == aesni & pclmul & avx of "
           "the masked flags (0 in the nosimd build, where every GCM entry point must return -1/ENOSYS); unmasked flags must all appear in /proc/cpuinfo. Non-trivial = (case, mask) whose effective feature set differs "
           "from the reference; distinct = (build, driver, seed, length policy, mask)."),
@@ -369,4 +369,28 @@ ROUND6_ADD = {
  "C19": "Second phase of every unfocused trial: the main thread prepares read-only objects (AES-256-GCM state from beforenm, two precomputed box keys, an Ed25519 key pair with a signed message, MAC / secretbox keys, a keyed BLAKE2b state that every thread copies), in the internal-RNG family calls randombytes_close(), then N new threads draw 32 random bytes and run encrypt_afternm / box_easy_afternm / sign_verify_detached / sign_detached / keyed generichash / secretbox / auth on private buffers with those shared const inputs; per-thread digests are recomputed sequentially, the draws compared across threads.",
 }
 for _k, _v in ROUND6_ADD.items():
+    PROPS[_k]["rule"] = PROPS[_k]["rule"] + " " + _v
+
+# ---- additions of round 7.  "Giant" sub-properties use harness/giant.hpp: private anonymous MAP_NORESERVE mappings of 4 GiB and more (reading
+# untouched pages costs no memory); they run in the thorough tier, in the non-sanitizer builds, in the first round only, ask /proc/meminfo before
+# writing such a buffer and count a case they had to skip.
+ROUND7_ADD = {
+ "C01": "Combined-mode messages of 1 MiB + 1 .. 3 MiB + 5 bytes (sub large): the block counter of one call crosses 2^14 and 2^15 blocks. giant_messages: 2^32 + 77 bytes encrypted in place (real memory) by the three ChaCha20-Poly1305 variants and both secretboxes - ciphertext windows around 2^32 and at the end against plaintext XOR model keystream at that offset, tag against Poly1305(model one-time key, MAC input of the construction) fed through the library's streaming Poly1305; AES-256-GCM - windows against the model's counter mode at that block; AEGIS-128L/256 and GCM - the ciphertext of the first 1024 bytes equals that of the prefix alone; all: in-place decryption succeeds and restores the sampled plaintext windows.",
+ "C02": "box_public_forgery: a ciphertext sealed under a key anyone can compute (HSalsa20 / HChaCha20 of the all-zero shared point or of the public key itself, all-zero key) together with a low-order sender public key (7 encodings, both top-bit settings) must be refused by open_easy / open_detached / NaCl open for every recipient, both ciphers, four masks (5040 cases), and release nothing. giant_inputs: associated data or MAC'ed message of 2^32 + 77 bytes (sparse) for the six AEADs, secretstream pull, onetimeauth_verify and the three HMAC verifiers, and a real 4 GiB ciphertext for the six AEADs (verify-only decryption): the genuine input verifies, a bit flipped at byte 100, 2^32 - 1, 2^32 + 5, 2^32 + 64, the middle and the last byte is rejected.",
+ "C03": "giant_requests: single requests of 2^32 + 71 bytes and more for every stream / XOR entry point, sampled windows against the model keystream (block counter beyond 2^26 blocks, byte offsets beyond 32 bits).",
+ "C04": "giant_messages: messages of 2^32 + 5 bytes (sparse) through every hash / MAC, one-shot, as pieces of 2^24 + 1 bytes, as a single update call and as an update of 2^32 bytes followed by the rest: all equal, and different from the digest of the first (length mod 2^32) bytes; SipHash against a pointer-based model.",
+ "C06": "giant_sign: a sparse message of 2^32 + 21 bytes signed by crypto_sign_detached and (2^32 + 22 bytes, pieces of 2^31 + 9 bytes) by the multi-part Ed25519ph API: the two SHA-512 passes of RFC 8032 recomputed with the library's streaming SHA-512, the arithmetic by the reference model (composition validated against the full model on a short message in the same run); verification accepts the signature and rejects the message with one bit flipped at byte 2^32 + 3.",
+ "C07": "giant_h2c: the four hash-to-group functions x both hashes over a sparse message of 2^32 + 5..8 bytes: b_0 of expand_message_xmd recomputed with the library's streaming SHA-256 / SHA-512, everything after b_0 by the reference model (composition validated against the full model on a short message in the same run).",
+ "C08": "giant_scrypt: crypto_pwhash_scryptsalsa208sha256_ll (N=2, r=1) with 2^32 - 31, 2^32 and 2^32 + 40 bytes of output (sampled blocks T_i = HMAC-SHA-256(P, B || INT(i)) from the reference model, partial last block, nothing written beyond), and with p = 2^25 and 2^25 + 1 (4 GiB between the two PBKDF2 passes) against a composition of the library's streaming HMAC-SHA-256 and the reference BlockMix; the composition is checked against the full reference model at p = 1, 3, 33 in every tier.",
+ "C09": "giant_chunk: small chunk, a chunk with a sparse message of 2^32 + 50 bytes (tags MESSAGE and REKEY), small FINAL chunk: tag byte and ciphertext windows around 2^32 and at the end against the model keystream at that block, the MAC against Poly1305 over the construction's MAC input fed through the library's streaming Poly1305, the pushing state afterwards against the model's, the receiver pulls all three chunks and the sampled windows of the giant message come back.",
+ "C10": "simulated_cpus (harness/simcpu.hpp; non-sanitizer builds, one of them - variant mflags - compiled with the per-library machine flags of Makefile.am): in forked children CPUID is answered by the harness through CPUID faulting (9 AVX states: AVX-512F / AVX2 bits of leaf 7 cleared separately and together, the AVX bit of leaf 1 cleared with leaf 7 intact, OSXSAVE or XSAVE cleared; x 5 SSE levels x 4 AES-NI / PCLMUL states, RDRAND cleared in a third: 180 machines, about half in the quick tier), the library's detection and selection are re-run, and 18 calls (stream ciphers, BLAKE2b, Poly1305, X25519, AEGIS, AES-GCM, AEAD / secretbox compositions, Argon2i/id, scrypt, the internal random generator) are single-stepped (EFLAGS.TF): reported flags must be a subset of what the machine provides by the Intel SDM detection procedure, no executed instruction inside the executable may belong to an extension the machine lacks (VEX / EVEX, the 0F 38 / 0F 3A maps, SSE3, RDRAND; classifier pinned on 39 hand-assembled instructions), outputs must equal those with every feature masked off, the child must not die.",
+ "C13": "Initial counters next to 2^32 and 2^64 for the _ic entry points; in-place and offset calls with 1 MiB + 1 .. 2 MiB + 5 bytes.",
+ "C14": "giant_operands: sodium_compare / sodium_memcmp / sodium_is_zero over sparse operands of 2^32 and 2^32 + 16 bytes whose only differences lie at or above byte 2^32 - 1 (and, for compare, contradict the low bytes).",
+ "C15": "giant_texts: 3 GiB + 1..3 bytes (2^31 + 1 for hex) encode to more than 2^32 characters: documented length (function and macro), terminator position, text windows around 2^32 and at the end against the model, decode(encode(x)) == x at sampled positions, decoded length and end pointer.",
+ "C17": "`sodium_free` after a canary alteration must terminate the process whatever the disposition of SIGSEGV is (ignored, blocked, a handler that returns). giant_allocations (thorough, first round): sodium_malloc of 2^32 - 1, 2^32, 2^32 + 17, 2^32 + page + 1 bytes and sodium_allocarray with exact products above 2^32 (65537 x 65537, 3 x (2^31 - 5), (2^31 + 1) x 2): fill pattern over the whole region, last byte writable, first byte beyond faults, under-write detected by sodium_free, protection changes honoured at the far end.",
+ "C18": "builtin_sources: 400 successive 32-bit draws of two children compared word by word (two equal words at the same position = failure); a /dev/urandom that fstat reports as a regular file must not be used (no byte delivered). giant_requests (forked children): randombytes_buf of 2^32 and 2^32 + 100 bytes - an installed source must be asked for exactly that range, sysrandom and the internal generator must leave no all-zero 32-byte window among 4101 sampled ones and write nothing beyond - and randombytes_buf_deterministic of those sizes against the ChaCha20-IETF model in windows around 2^32 and at the end.",
+ "C19": "Every thread reads all CPU-feature getters and crypto_aead_aes256gcm_is_available() right after sodium_init returns; the values must equal the final ones (no lazily completed detection), and the getters race under ThreadSanitizer like any other call.",
+ "C20": "Foreign strings longer than 128 characters; scrypt parameter sets up to N*r = 2^25.",
+}
+for _k, _v in ROUND7_ADD.items():
     PROPS[_k]["rule"] = PROPS[_k]["rule"] + " " + _v
